@@ -3,6 +3,7 @@ mod hist;
 mod obs_storage;
 mod refserver;
 mod rep;
+mod store;
 
 use common::*;
 use std::io::Write;
@@ -260,6 +261,98 @@ fn run_rep(args: &Args) {
     std::fs::write(args.out.join("stats.json"), format!("{{{}}}\n", body.join(", "))).unwrap();
 }
 
+fn run_store(args: &Args) {
+    std::fs::create_dir_all(&args.out).unwrap();
+    let mut ops = std::io::BufWriter::new(std::fs::File::create(args.out.join("ops.txt")).unwrap());
+    let mut imp = std::io::BufWriter::new(std::fs::File::create(args.out.join("impl.out")).unwrap());
+    let mut stats: std::collections::HashMap<String, u64> = std::collections::HashMap::new();
+    let mut emit = |hdr: &str, lines: &[String], outs: &[String]| {
+        writeln!(ops, "{}", hdr).unwrap();
+        writeln!(imp, "{}", hdr).unwrap();
+        for (l, o) in lines.iter().zip(outs.iter()) {
+            writeln!(ops, "{}", l).unwrap();
+            writeln!(imp, "> {}", l).unwrap();
+            writeln!(imp, "{}", o).unwrap();
+        }
+    };
+    let replay_on = |sql: bool, lines: &[String]| -> Vec<String> {
+        let r = std::panic::catch_unwind(std::panic::AssertUnwindSafe(|| {
+            let mut run = store::StoreRun::new(sql);
+            lines.iter().map(|l| run.exec(l)).collect::<Vec<String>>()
+        }));
+        r.unwrap_or_else(|_| lines.iter().map(|_| "panic".to_string()).collect())
+    };
+    let mut files: Vec<PathBuf> = Vec::new();
+    if let Some(r) = &args.replay {
+        files.push(r.clone());
+    } else if let Some(c) = &args.corpus {
+        if let Ok(rd) = std::fs::read_dir(c) {
+            let mut fs: Vec<PathBuf> = rd.filter_map(|e| e.ok().map(|e| e.path())).collect();
+            fs.sort();
+            files.extend(fs);
+        }
+    }
+    let mut gid = 0;
+    for f in &files {
+        // every distinct line list in the file is run on both backends as one group
+        let mut seen: Vec<Vec<String>> = Vec::new();
+        for (_, lines) in read_cases(f) {
+            if seen.contains(&lines) {
+                continue;
+            }
+            seen.push(lines.clone());
+            gid += 1;
+            let ro = lines.iter().any(|l| l == "REOPEN_RO");
+            if !ro {
+                let o = replay_on(false, &lines);
+                emit(&format!("# case c{}.mem backend=mem group=c{}", gid, gid), &lines, &o);
+            }
+            let o = replay_on(true, &lines);
+            emit(&format!("# case c{}.sql backend=sql group=c{}", gid, gid), &lines, &o);
+        }
+    }
+    if args.replay.is_none() {
+        let mut rng = Rng::new(args.seed);
+        for i in 0..args.cases {
+            let mut crng = rng.fork();
+            let len = 5 + crng.below(args.max_len as u64) as usize;
+            let ro_case = crng.chance(1, 8);
+            // generate while executing on the in-memory backend
+            // (read-only cases exist on SQLite only and are generated there)
+            let mut run = store::StoreRun::new(ro_case);
+            let mut lines = Vec::new();
+            let mut outs = Vec::new();
+            for k in 0..len {
+                let l = if ro_case && k == len / 2 {
+                    "REOPEN_RO".to_string()
+                } else {
+                    store::gen_line(&mut run, &mut crng, !ro_case)
+                };
+                let o = run.exec(&l);
+                lines.push(l);
+                outs.push(o);
+            }
+            drop(run);
+            if !ro_case {
+                emit(&format!("# case {}.mem seed={} backend=mem group={}", i, args.seed, i), &lines, &outs);
+                *stats.entry("groups".into()).or_insert(0) += 1;
+            } else {
+                *stats.entry("read_only_cases".into()).or_insert(0) += 1;
+            }
+            let o = if ro_case { outs.clone() } else { replay_on(true, &lines) };
+            for (l, _) in lines.iter().zip(o.iter()) {
+                *stats.entry(format!("call_{}", l.split_whitespace().next().unwrap_or(""))).or_insert(0) += 1;
+            }
+            emit(&format!("# case {}.sql seed={} backend=sql group={}", i, args.seed, i), &lines, &o);
+            *stats.entry("cases".into()).or_insert(0) += 1;
+        }
+    }
+    let mut keys: Vec<&String> = stats.keys().collect();
+    keys.sort();
+    let body: Vec<String> = keys.iter().map(|k| format!("\"{}\": {}", k, stats[*k])).collect();
+    std::fs::write(args.out.join("stats.json"), format!("{{{}}}\n", body.join(", "))).unwrap();
+}
+
 fn main() {
     let a: Vec<String> = std::env::args().skip(1).collect();
     if a.is_empty() {
@@ -270,6 +363,7 @@ fn main() {
     match a[0].as_str() {
         "hist" => run_hist(&args),
         "rep" => run_rep(&args),
+        "store" => run_store(&args),
         f => {
             eprintln!("unknown family {}", f);
             std::process::exit(2);
